@@ -27,8 +27,23 @@
 //   chain:    @<lzma_str_to_filters string, written with '=' and '--' instead of ':' and ' '>
 //             or  name,key=val,...+name,...    names: lzma1 lzma1ext lzma2 delta x86 powerpc ia64 arm armthumb arm64 sparc riscv
 #include "c06_run.h"
+#include <signal.h>
+#include <unistd.h>
 
 bool c06_small_op(hp_line *l);   // c06_small.c
+
+// Watchdog: a single run (one coder, one input, one slicing) that takes longer than this many seconds of wall time means that
+// lzma_code() itself does not return (e.g. a threaded coder waiting for a worker that will never signal). The process says so
+// and exits with status 3; the Python side records the op line as the replay.
+static unsigned g_run_timeout = 180;
+static void on_alarm(int sig)
+{
+	(void)sig;
+	static const char msg[] = "\nWATCHDOG: lzma_code() did not return\n";
+	ssize_t w = write(2, msg, sizeof(msg) - 1);
+	(void)w;
+	_exit(3);
+}
 
 // Link-time interposer (-Wl,--wrap=lzma_simple_coder_init, no source change): tells whether a BCJ filter
 // took part in a run, which is what decides how much of a rejected input's result the property fixes.
@@ -408,8 +423,10 @@ static void do_run(coder *c, lzma_stream *strm, const uint8_t *in, size_t in_len
 {
 	c06_result_reset(r);
 	g_bcj_used = false;
+	alarm(g_run_timeout);
 	lzma_ret ir = coder_init(c, strm, &in, &in_len, r);
 	if (ir != LZMA_OK) {
+		alarm(0);
 		r->ret = 100 + (int)ir;
 		r->out_len = 0;
 		return;
@@ -424,6 +441,7 @@ static void do_run(coder *c, lzma_stream *strm, const uint8_t *in, size_t in_len
 		sl = &tmp;
 	}
 	c06_run_sliced(strm, in, in_len, sl, final_finish || c->is_encoder, c->seekable, c->timed, r);
+	alarm(0);
 	r->bcj = g_bcj_used;
 	coder_post(c, r);
 }
@@ -471,6 +489,8 @@ static void sweep_one(sweep *s, const char *spec)
 int main(void)
 {
 	hp_line l = {0};
+	signal(SIGALRM, on_alarm);
+	if (getenv("C06_RUN_TIMEOUT") != NULL) g_run_timeout = (unsigned)atoi(getenv("C06_RUN_TIMEOUT"));
 	while (hp_next(&l)) {
 		const char *op = l.tok[0];
 		if (!strcmp(op, "run") && l.ntok >= 7) {
